@@ -118,7 +118,7 @@ def orders_for(ctx):
 
 
 def run(ctx, rep, model=True):
-    n = 6 if ctx.quick else 40
+    n = 12 if ctx.quick else 50
     for i in range(n):
         spec = plotgen.random_spec(ctx.rng, ndims=[3, 2][i % 2], nf=[3, 2, 4, 1][i % 4], data="bits", B=2,
                                    layout=["scatter", "files", "perm"][i % 3])
